@@ -20,6 +20,7 @@ CasIdx(s, k) == {0, s.idx + 5} \cup (IF KvHas(s, k) THEN {KvGet(s, k).mi} \cup (
 KvCmd(op, k, v, f, s, mi) == [t |-> "kv", op |-> op, k |-> k, v |-> v, f |-> f, s |-> s, li |-> 0, mi |-> mi]
 CmdsKV(s) ==
      {KvCmd("set", k, v, f, "", 0) : k \in KeysFor, v \in Vals, f \in Flags}
+  \cup {KvCmd("set", k, "x", 0, sid, 0) : k \in KeysFor, sid \in SessIds}     \* a plain write carrying a Session field
   \cup {KvCmd("delete", k, "", 0, "", 0) : k \in KeysFor}
   \cup {KvCmd("delete-tree", p, "", 0, "", 0) : p \in PrefFor}
   \cup UNION {{KvCmd("cas", k, v, 0, "", mi) : v \in Vals, mi \in CasIdx(s, k)} : k \in KeysFor}
